@@ -17,7 +17,7 @@ import types
 
 import numpy as np
 
-from .. import tlc, trace, gen
+from .. import tlc, trace, gen, realdata
 from ..common import Evidence, Reporter, import_mir_eval, Machinery
 from ..recorder import Recorder, public_functions
 
@@ -329,6 +329,12 @@ def run(tier, seed):
             bundles.append(sonify_bundle(me, rng))
         for k in range(3 if thorough else 1):
             bundles.append(separation_bundle(me, rng, heavy=thorough))
+        # the repository's own annotation fixtures: evaluate() and every metric on real-world sized inputs
+        n_real = 0
+        for name, t in T.items():
+            for nm, ra in realdata.pairs(me, name, limit=None if thorough else (1 if name in ("transcription_velocity", "hierarchy") else 2)):
+                bundles.append(task_calls(t, ra, 1, alias=False))
+                n_real += 1
         order = list(range(len(bundles)))
         rng.shuffle(order)
         for k in order:
@@ -394,6 +400,7 @@ def run(tier, seed):
     ev.tlc("Trace_Session", st, "verdict on every distinct recorded call and every call group")
     ev.cov["traces_validated_against_impl"] = stats["public"]
     ev.cov["histories_executed"] = n_hist
+    ev.cov["repository_fixture_pairs_in_histories"] = n_real
     ev.cov["fresh_state_history_calls"] = fresh
     ev.cov["recorded_events_total"] = stats["events"]
     ev.cov["distinct_call_records"] = len(records)
